@@ -9,7 +9,7 @@ from vpkit.rar import drive, rar_cfg_strategy, residual_sq
 PROPERTY = "C17"
 LEVEL = "exploration"
 RULE = (
-    "cases = the RAR configurations of C16 (analytic residual landscapes with closed-form values, candidate / selected "
+    "cases = the RAR configurations of C16 incl. ODE / stationary system losses (analytic residual landscapes with closed-form values, candidate / selected "
     "sizes, equal and unequal time / space initial counts, sequences of refinement steps interleaved with batch draws "
     "and reshuffles). Per step, from the guarded hook (candidates, reported squared residuals, chosen indices) and "
     "store snapshots taken by the harness: (1) all candidates lie in the domain; (2) squared residuals recomputed by "
@@ -141,7 +141,7 @@ def make_on_iter(cfg, state):
 
 def run_case(case):
     cfg = case["cfg"]
-    labels = [cfg["kind"], f"d{cfg['dim']}"]
+    labels = [cfg["kind"], f"d{cfg['dim']}"] + (["system-loss"] if cfg.get("system") else [])
     state = {"steps": 0, "reshuffles": 0, "tied": False, "strict": True}
     g, records, r = drive(cfg, on_iter=make_on_iter(cfg, state))
     if r is not None:
